@@ -501,7 +501,10 @@ func unpack_iterable(vm *Vm, v py.Object, argcnt int, argcntafter int, sp int) e
 	for i = 0; i < argcnt; i++ {
 		w, err := py.Next(it)
 		if err != nil {
-			/* Iterator done, via error or exhaustion. */
+			/* Iterator done via exhaustion - any other error propagates */
+			if !py.IsException(py.StopIteration, err) {
+				return err
+			}
 			return py.ExceptionNewf(py.ValueError, "need more than %d value(s) to unpack", i)
 		}
 		sp--
@@ -510,8 +513,11 @@ func unpack_iterable(vm *Vm, v py.Object, argcnt int, argcntafter int, sp int) e
 
 	if argcntafter == -1 {
 		/* We better have exhausted the iterator now. */
-		_, finished := py.Next(it)
-		if finished != nil {
+		_, err := py.Next(it)
+		if err != nil {
+			if !py.IsException(py.StopIteration, err) {
+				return err
+			}
 			return nil
 		}
 		return py.ExceptionNewf(py.ValueError, "too many values to unpack (expected %d)", argcnt)
